@@ -16,6 +16,8 @@ HARNESSES = {
     'C20': ['l4_f32_constants'],
     'C08': ['c08_pushtype_equals_scalar'],
     'C10': ['c10_unfired_vector', 'c10_unfired_code', 'c10_unfired_graph'],
+    # C18: bounded harnesses for Graph::remove_node / remove_edge / get_weight on a 3-node graph with a symbolic edge set were tried
+    # (measured: neither finished in 15 minutes -- std HashMap under CBMC) and are not kept
     # b_c09_int_vector_remove / b_c09_int_vector_sort / b_c09_float_vector_sort_total exist in kani/vector.rs.inc but are not run:
     # std's sort and Vec::retain did not finish in CBMC within 400 s even for length <= 2 (measured) -> those bodies stay undecided
     'C09': ['b_c09_bool_vector_count', 'b_c09_int_vector_sum', 'b_c09_int_vector_bool_index', 'b_c09_from_int_array'],
@@ -42,6 +44,22 @@ WHAT = {
     'b_c09_int_vector_sort': 'BOUNDED (len<=2): INTVECTOR.SORT*ASC yields an ascending vector of the same length',
     'b_c09_float_vector_sort_total': 'BOUNDED (len<=2): FLOATVECTOR.SORT*ASC/DESC never panic (NaN included) and keep the length',
 }
+
+
+def run_group(cmd, cwd, env, timeout):
+    """run cmd in its own process group; on timeout the WHOLE group is killed (cargo-kani's cbmc children otherwise survive
+    their parent and keep tens of GB for hours -- observed)"""
+    import signal
+    p = subprocess.Popen(cmd, cwd=cwd, stdout=subprocess.PIPE, stderr=subprocess.STDOUT, text=True, env=env, start_new_session=True)
+    try:
+        out, _ = p.communicate(timeout=timeout)
+        return out
+    except subprocess.TimeoutExpired:
+        try: os.killpg(p.pid, signal.SIGKILL)
+        except Exception: pass
+        try: out, _ = p.communicate(timeout=30)
+        except Exception: out = ''
+        return (out or '') + '\nTIMEOUT after %ds' % timeout
 
 
 def make_scratch(repo):
@@ -75,12 +93,7 @@ def run(prop_id, cfg, res, seed, timeout=420):
         cmd = ['cargo', 'kani', '-Z', 'stubbing', '--output-format', 'terse', '-j', '8']
         for n in names: cmd += ['--harness', n]
         env = dict(os.environ, CARGO_NET_OFFLINE='true')
-        try:
-            p = subprocess.run(cmd, cwd=d, stdout=subprocess.PIPE, stderr=subprocess.STDOUT, text=True, timeout=timeout, env=env)
-            log = p.stdout
-        except subprocess.TimeoutExpired as e:
-            log = (e.stdout or b'').decode() if isinstance(e.stdout, bytes) else (e.stdout or '')
-            log += '\nTIMEOUT after %ds' % timeout
+        log = run_group(cmd, d, env, timeout)
         # per-harness status from the (possibly partial) log: "Thread k: Checking harness X..." ... "Thread k: " + result block
         status_of = {}; cur = {}; last_thread = None; failed_checks = {}
         for line in log.split('\n'):
@@ -119,11 +132,10 @@ def run(prop_id, cfg, res, seed, timeout=420):
                 # counterexample: concrete playback of the failing harness
                 cex = ''
                 try:
-                    q = subprocess.run(['cargo', 'kani', '-Z', 'stubbing', '-Z', 'concrete-playback', '--concrete-playback=print', '--harness', n],
-                                       cwd=d, stdout=subprocess.PIPE, stderr=subprocess.STDOUT, text=True, timeout=600, env=env)
-                    m = re.search(r'Concrete playback unit test for.*?```(.*?)```', q.stdout, re.S)
+                    qout = run_group(['cargo', 'kani', '-Z', 'stubbing', '-Z', 'concrete-playback', '--concrete-playback=print', '--harness', n], d, env, 600)
+                    m = re.search(r'Concrete playback unit test for.*?```(.*?)```', qout, re.S)
                     cex = (m.group(1) if m else '')[:3000]
-                    fc = re.findall(r'Failed Checks: (.*)', q.stdout)
+                    fc = re.findall(r'Failed Checks: (.*)', qout)
                 except Exception as e:
                     fc = []; cex = 'playback failed: %r' % e
                 out['violations'].append(dict(unit='kani::' + n, name=None, oid='kani:' + n, cls='kani', label=None,
